@@ -3,12 +3,15 @@
    and the ticker goroutines.  The protocol parameters are read off the GENERATED channel-operation tables:
      stop_waits       Stop receives on the loop's done channel before returning
      rendezvous       stopTicker hands a value over on the unbuffered stop channel before closing it
-     guarded          the ticker goroutine posts its tick inside a select that also waits for the stop channel
+     guarded          the ticker goroutine cannot be blocked posting its tick while the server stops it (the post is a
+                      select that also waits for the stop channel, or a put into the unbounded queue)
+     drops            posting after the server has closed its queue is dropped (the queue checks a closed flag) instead
+                      of being a send on a closed channel
    Fault = a send on the closed event channel (a Go panic).  Definitions only. *)
 From Coq Require Import List Bool Arith.
 Import ListNotations.
 
-Record params := mkP { stop_waits : bool; rendezvous : bool; guarded : bool }.
+Record params := mkP { stop_waits : bool; rendezvous : bool; guarded : bool; drops : bool }.
 
 Inductive tstate := TSel | TSend | TDone.     (* in the outer select / committed to posting a tick / returned *)
 Inductive serve := SRun | SStopping (rest : list nat) | SClosed.
@@ -44,14 +47,14 @@ Definition upd (s : sh) lr sr cp v ec qf sc tk := mkS lr sr cp v ec qf sc tk.
 Definition step (p : params) (s : sh) (a : act) : outcome :=
   match a with
   | LoopDriverCall =>
-      if loop_running s then (if evt_closed s then SendOnClosed else Next s) else Disabled
+      if loop_running s then (if evt_closed s && negb (drops p) then SendOnClosed else Next s) else Disabled
   | LoopExit => Next (mkS false (stop_returned s) (close_posted s) (sv s) (evt_closed s) (q_full s) (stop_closed s) (tickers s))
   | StopReturn =>
       if stop_waits p && loop_running s then Disabled
       else Next (mkS (loop_running s) true (close_posted s) (sv s) (evt_closed s) (q_full s) (stop_closed s) (tickers s))
   | DriverClose =>
       if stop_returned s && negb (close_posted s)
-      then (if evt_closed s then SendOnClosed
+      then (if evt_closed s && negb (drops p) then SendOnClosed
             else Next (mkS (loop_running s) (stop_returned s) true (sv s) (evt_closed s) (q_full s) (stop_closed s) (tickers s)))
       else Disabled
   | ServeTakeClose =>
@@ -93,7 +96,7 @@ Definition step (p : params) (s : sh) (a : act) : outcome :=
       end
   | TickSent i =>
       match nth i (tickers s) TDone with
-      | TSend => if evt_closed s then SendOnClosed
+      | TSend => if evt_closed s && negb (drops p) then SendOnClosed
                  else if q_full s then Disabled
                  else Next (mkS (loop_running s) (stop_returned s) (close_posted s) (sv s) (evt_closed s) (q_full s) (stop_closed s)
                                 (set_nth (tickers s) i TSel))
